@@ -5,6 +5,7 @@ import GoProbeModel.Spec.C01
 import GoProbeModel.Spec.C16
 import GoProbeModel.Spec.C14
 import GoProbeModel.Spec.C23
+import GoProbeModel.Spec.C17
 
 /-!
 `gpjudge`: executable specs. Reads lines `<Cxx> <case fields…> => <implementation output>` and
@@ -17,5 +18,6 @@ def main : IO Unit := DriverLoop.runJudge [
   ("C01", C01.judge),
   ("C16", C16.judge),
   ("C14", C14.judge),
-  ("C23", C23.judge)
+  ("C23", C23.judge),
+  ("C17", C17.judge)
 ]
